@@ -22,6 +22,8 @@ func VerifHarness_C19_StrongAndWeakReadBackAlike() {
 	rid := &dtpb.ReferenceId{Value: id}
 	if version != "" {
 		rid.History = &dtpb.Id{Value: version}
+	} else if verifrt.NondetBool("emptyHistoryElement") {
+		rid.History = &dtpb.Id{} // an allocated history element without a value is no version
 	}
 	strong := &dtpb.Reference{}
 	typeName := ""
